@@ -29,7 +29,7 @@ func (g *G) service(scope map[string]bool) {
 		s.BasePath = "/" + norm(s.Name)
 		g.feat("service-base-path")
 	}
-	if g.p.Errors && rapid.IntRange(0, 2).Draw(t, "svcerr") == 0 {
+	if g.p.Errors && rapid.IntRange(0, 1).Draw(t, "svcerr") == 0 {
 		e := &m.ErrorDef{Name: "svc_failure", Temporary: rapid.Bool().Draw(t, "svcerrtemp")}
 		s.Errors = append(s.Errors, e)
 		s.ErrorResp = append(s.ErrorResp, &m.ErrorResponse{Name: e.Name, Status: rapid.SampledFrom([]int{409, 429, 502}).Draw(t, "svcerrstatus"), Level: "service"})
@@ -611,6 +611,9 @@ func (g *G) mapObjectResult(meth *m.Method) {
 				}
 			}
 		}
+		if isResultType && (f.Required || f.Attr.Default != nil) && (canHeader || canCookie) && !MergedValidation(g.d, f.Attr).Empty() && g.avoid("C01-result-type-required-validated-response-header") {
+			canHeader, canCookie = false, false
+		}
 		if canHeader && g.d.Underlying(f.Attr) == m.Array {
 			if v := MergedValidation(g.d, f.Attr); v.MinLen != nil && *v.MinLen >= 2 && g.avoid("C03-response-header-array-not-split") {
 				canHeader = false
@@ -623,7 +626,7 @@ func (g *G) mapObjectResult(meth *m.Method) {
 		if g.p.RespHeaders && canHeader {
 			opts = append(opts, "header", "header")
 		}
-		if g.p.RespHeaders && canCookie && g.d.Underlying(f.Attr) == m.String {
+		if g.p.RespHeaders && canCookie && (g.d.Underlying(f.Attr) == m.String || !g.avoid("C01-response-cookie-nonstring")) {
 			opts = append(opts, "cookie")
 			if g.p.RespHeavy {
 				opts = append(opts, "cookie")
@@ -713,9 +716,40 @@ func (g *G) methodErrors(s *m.Service, meth *m.Method) {
 		meth.HTTP.ErrorResp = append(meth.HTTP.ErrorResp, er)
 		g.feat("method-error")
 	}
-	if len(g.d.API.Errors) > 0 && !g.apiErrInService && rapid.IntRange(0, 2).Draw(t, "methapierr") == 0 {
-		meth.Errors = append(meth.Errors, &m.ErrorDef{Name: g.d.API.Errors[0].Name})
-		g.feat("api-error-reused-by-method")
+	// re-declare inherited errors at the method level, in any order: their HTTP
+	// mapping stays where it is defined (service or API level)
+	var inh []*m.ErrorDef
+	for _, se := range s.Errors {
+		c := *se
+		inh = append(inh, &c)
+	}
+	if len(g.d.API.Errors) > 0 && !g.apiErrInService {
+		inh = append(inh, &m.ErrorDef{Name: g.d.API.Errors[0].Name})
+	}
+	if len(inh) > 0 && rapid.IntRange(0, 2).Draw(t, "methinherit") > 0 {
+		if len(inh) > 1 && rapid.Bool().Draw(t, "inheritorder") {
+			inh[0], inh[len(inh)-1] = inh[len(inh)-1], inh[0]
+		}
+		for _, e := range inh {
+			if len(inh) > 1 && rapid.IntRange(0, 3).Draw(t, "inheritskip") == 0 {
+				continue
+			}
+			meth.Errors = append(meth.Errors, e)
+			isAPI := len(g.d.API.Errors) > 0 && e.Name == g.d.API.Errors[0].Name
+			if isAPI {
+				g.feat("api-error-reused-by-method")
+			} else {
+				g.feat("service-error-redeclared-by-method")
+			}
+		}
+		if rapid.Bool().Draw(t, "inheritfirst") {
+			// inherited errors first, the method's own errors after
+			k := len(meth.Errors) - n
+			if k > 0 && n > 0 {
+				own := append([]*m.ErrorDef{}, meth.Errors[:n]...)
+				meth.Errors = append(append([]*m.ErrorDef{}, meth.Errors[n:]...), own...)
+			}
+		}
 	}
 	seen := map[int]int{}
 	for _, er := range meth.HTTP.ErrorResp {
